@@ -100,6 +100,16 @@ def check(cx):
         "cache_size": {K.PAGER + "::alloc_page_zero"}, "num_siblings_per_side": {K.PAGER + "::alloc_page_zero"},
     }
     w = field_writers(p, HDR)
+    if p.inline_mode:
+        # a small helper that does the stores for its only callers (`store_config(&mut header, &config)`) is judged through them
+        def through(x, owners, depth=0):
+            if x in owners or depth > 3 or not p.transparent(x):
+                return {x}
+            out_ = set()
+            for c_ in p.effective_callers(x, owners):
+                out_ |= through(p.raw_fns[c_].root or c_ if c_ in p.raw_fns else c_, owners, depth + 1)
+            return out_ or {x}
+        w = {fld: set().union(*[through(x, OWN.get(fld, set())) for x in ws_]) if ws_ else set() for fld, ws_ in w.items()}
     for fld, owners in OWN.items():
         ws = w.get(fld, set())
         cx.verdict(bool(ws) and ws <= owners, r2, fld, "", "written by %s" % sorted(ws),
